@@ -29,9 +29,10 @@ structure CInv (s : CState) : Prop where
   await_ok : ∀ w ∈ s.attemptWaiters, ∃ t, s.inflight = some t ∧ w ≤ t
   acked_ok : ∀ r ∈ s.acked, ∃ t ∈ s.shist, r ≤ t
   standby_zero : s.role = .standby → s.nextHead = 0 ∧ s.lastPushed = 0 ∧ s.inflight = none
+  sroot_shown : s.sroot = 0 ∨ s.sroot ∈ s.shist
 
 theorem cinv_init : CInv cinit := by
-  refine ⟨by decide, by decide, ?_, .inl rfl, .inl rfl, .inl rfl, fun _ => .inr rfl, .inr rfl, ?_, ?_, ?_, ?_, ?_, ?_⟩
+  refine ⟨by decide, by decide, ?_, .inl rfl, .inl rfl, .inl rfl, fun _ => .inr rfl, .inr rfl, ?_, ?_, ?_, ?_, ?_, ?_, .inl rfl⟩
   · intro r hr; simp [cinit] at hr; subst hr; decide
   all_goals simp [cinit]
 
@@ -42,7 +43,7 @@ theorem cstep_write {s s' : CState} (hi : CInv s) (h : cstep s .write = some s')
     have hf := hi.fresh_pos
     have hmem : ∀ r ∈ s.hist, r ≤ s.proot ∧ 0 < r := hi.hist_le
     have hp0 : 0 < s.proot := (hmem _ hi.proot_mem).2
-    refine ⟨by simp, by simp, ?_, ?_, ?_, ?_, hi.sroot_le, hi.last_le, ?_, ?_, hi.wait_ok, hi.await_ok, hi.acked_ok, hi.standby_zero⟩
+    refine ⟨by simp, by simp, ?_, ?_, ?_, ?_, hi.sroot_le, hi.last_le, ?_, ?_, hi.wait_ok, hi.await_ok, hi.acked_ok, hi.standby_zero, hi.sroot_shown⟩
     all_goals dsimp only
     · intro r hr
       simp only [List.mem_cons] at hr
@@ -73,7 +74,7 @@ theorem cinv_setNext {s : CState} (hi : CInv s) (hp : s.role = .primary) : CInv 
   have hl : s.lastPushed ≤ s.proot := le_proot hi (hi.last_ok.imp id (·.1))
   have hn : s.nextHead ≤ s.proot := le_proot hi hi.next_ok
   refine ⟨hi.fresh_pos, hi.proot_mem, hi.hist_le, .inr hi.proot_mem, hi.last_ok, hi.sroot_ok, fun _ => .inl hs,
-    .inl hl, hi.shist_ok, ?_, ?_, hi.await_ok, hi.acked_ok, ?_⟩
+    .inl hl, hi.shist_ok, ?_, ?_, hi.await_ok, hi.acked_ok, ?_, hi.sroot_shown⟩
   all_goals dsimp only
   · intro t ht; have := hi.infl_ok t ht; exact ⟨this.1, (hi.hist_le t this.1).1, this.2.2⟩
   · intro w hw; have := hi.wait_ok w hw; omega
@@ -82,20 +83,45 @@ theorem cinv_setNext {s : CState} (hi : CInv s) (hp : s.role = .primary) : CInv 
 theorem cinv_addWaiter {s : CState} (hi : CInv s) (w : Nat) (hw : w ≤ s.nextHead) :
     CInv { s with waiters := w :: s.waiters } := by
   refine ⟨hi.fresh_pos, hi.proot_mem, hi.hist_le, hi.next_ok, hi.last_ok, hi.sroot_ok, hi.sroot_le, hi.last_le,
-    hi.shist_ok, hi.infl_ok, ?_, hi.await_ok, hi.acked_ok, hi.standby_zero⟩
+    hi.shist_ok, hi.infl_ok, ?_, hi.await_ok, hi.acked_ok, hi.standby_zero, hi.sroot_shown⟩
   intro x hx
   simp only [List.mem_cons] at hx
   rcases hx with rfl | hx
   · exact hw
   · exact hi.wait_ok x hx
 
+/-- the quiesce branch: a caught-up primary releases its outstanding waiters as successes -/
+theorem cinv_ackWaiters {s : CState} (hi : CInv s) (hp : s.role = .primary) (hc : caughtUp s = true) :
+    CInv { s with acked := s.waiters ++ s.acked, waiters := [] } := by
+  simp only [caughtUp, hp, bne_self_eq_false, Bool.false_or, Bool.and_eq_true, bne_iff_ne, ne_eq, beq_iff_eq] at hc
+  have h1 : s.lastPushed ≤ s.sroot := by
+    rcases hi.last_ok with h | h
+    · omega
+    · exact h.2
+  have hsh : s.sroot ∈ s.shist := by
+    rcases hi.sroot_shown with h | h
+    · omega
+    · exact h
+  refine ⟨hi.fresh_pos, hi.proot_mem, hi.hist_le, hi.next_ok, hi.last_ok, hi.sroot_ok, hi.sroot_le, hi.last_le,
+    hi.shist_ok, hi.infl_ok, ?_, hi.await_ok, ?_, hi.standby_zero, hi.sroot_shown⟩
+  all_goals dsimp only
+  · intro w hw; simp at hw
+  · intro x hx
+    simp only [List.mem_append] at hx
+    rcases hx with hx | hx
+    · exact ⟨s.sroot, hsh, by have := hi.wait_ok x hx; omega⟩
+    · exact hi.acked_ok x hx
+
 theorem cstep_exec {s s' : CState} (hi : CInv s) (h : cstep s .exec = some s') : CInv s' := by
-  have key : ∀ s1 : CState, CInv s1 → s1.proot ≤ s1.nextHead →
-      (if !caughtUp s1 then some { s1 with waiters := s1.proot :: s1.waiters } else some s1) = some s' → CInv s' := by
-    intro s1 h1 hle h
+  have key : ∀ s1 : CState, CInv s1 → s1.role = .primary → s1.proot ≤ s1.nextHead →
+      (if !caughtUp s1 then some { s1 with waiters := s1.proot :: s1.waiters }
+       else some { s1 with acked := s1.waiters ++ s1.acked, waiters := [] }) = some s' → CInv s' := by
+    intro s1 h1 hp1 hle h
     split at h
     · simp only [Option.some.injEq] at h; subst h; exact cinv_addWaiter h1 _ hle
-    · simp only [Option.some.injEq] at h; subst h; exact h1
+    · rename_i hc
+      simp only [Option.some.injEq] at h; subst h
+      exact cinv_ackWaiters h1 hp1 (by simpa using hc)
   simp only [cstep] at h
   split at h
   · simp only [Option.some.injEq] at h; subst h; exact hi
@@ -104,10 +130,10 @@ theorem cstep_exec {s s' : CState} (hi : CInv s) (h : cstep s .exec = some s') :
       cases hrole : s.role <;> simp_all
     by_cases hne : (s.proot != s.nextHead) = true
     · rw [if_pos hne] at h
-      exact key _ (cinv_setNext hi hp) (Nat.le_refl _) h
+      exact key _ (cinv_setNext hi hp) hp (Nat.le_refl _) h
     · rw [if_neg hne] at h
       have heq : s.proot = s.nextHead := by simpa using hne
-      exact key _ hi (by omega) h
+      exact key _ hi hp (by omega) h
 
 theorem cstep_init {s s' : CState} (hi : CInv s) (h : cstep s .init = some s') : CInv s' := by
   simp only [cstep] at h
@@ -127,7 +153,7 @@ theorem cstep_begin {s s' : CState} (hi : CInv s) (h : cstep s .begin = some s')
     have hmem : s.nextHead ∈ s.hist := by rcases hi.next_ok with h | h; exact absurd h hn0; exact h
     have hsr : s.sroot ≤ s.nextHead := by rcases hi.sroot_le hp with h | h; exact h; exact absurd h hn0
     refine ⟨hi.fresh_pos, hi.proot_mem, hi.hist_le, hi.next_ok, hi.last_ok, hi.sroot_ok, hi.sroot_le, hi.last_le,
-      hi.shist_ok, ?_, ?_, ?_, hi.acked_ok, ?_⟩
+      hi.shist_ok, ?_, ?_, ?_, hi.acked_ok, ?_, hi.sroot_shown⟩
     all_goals dsimp only
     · intro t ht; simp only [Option.some.injEq] at ht; subst ht; exact ⟨hmem, Nat.le_refl _, hsr, hp⟩
     · intro w hw; simp at hw
@@ -141,19 +167,14 @@ theorem cstep_finishOk {s s' : CState} (hi : CInv s) (h : cstep s .finishOk = so
   · simp at h
   · rename_i r hr
     obtain ⟨hmem, hle, hsr, hp⟩ := hi.infl_ok r hr
-    simp only [hp, beq_self_eq_true, if_true, Option.some.injEq] at h
-    subst h
-    refine ⟨hi.fresh_pos, hi.proot_mem, hi.hist_le, hi.next_ok, .inr ⟨hmem, Nat.le_refl _⟩, .inr hmem, fun _ => .inl hle,
-      .inl hle, ?_, ?_, hi.wait_ok, ?_, ?_, ?_⟩
-    all_goals dsimp only
-    · intro x hx
+    have hshist : ∀ x ∈ r :: s.shist, x ∈ s.hist ∧ x ≤ r := by
+      intro x hx
       simp only [List.mem_cons] at hx
       rcases hx with rfl | hx
       · exact ⟨hmem, Nat.le_refl _⟩
       · have := hi.shist_ok x hx; exact ⟨this.1, by omega⟩
-    · intro t ht; simp at ht
-    · intro w hw; simp at hw
-    · intro x hx
+    have hold : ∀ x ∈ s.attemptWaiters ++ s.acked, ∃ t ∈ r :: s.shist, x ≤ t := by
+      intro x hx
       simp only [List.mem_append] at hx
       rcases hx with hx | hx
       · obtain ⟨t, ht, hwt⟩ := hi.await_ok x hx
@@ -161,7 +182,32 @@ theorem cstep_finishOk {s s' : CState} (hi : CInv s) (h : cstep s .finishOk = so
         exact ⟨r, List.mem_cons_self .., hwt⟩
       · obtain ⟨t, ht, hwt⟩ := hi.acked_ok x hx
         exact ⟨t, List.mem_cons_of_mem _ ht, hwt⟩
-    · intro h; cases h
+    simp only [hp, beq_self_eq_true, if_true] at h
+    split at h
+    · rename_i hcu
+      have hcu' : s.nextHead = r := by simpa using hcu
+      simp only [Option.some.injEq] at h
+      subst h
+      refine ⟨hi.fresh_pos, hi.proot_mem, hi.hist_le, hi.next_ok, .inr ⟨hmem, Nat.le_refl _⟩, .inr hmem, fun _ => .inl hle,
+        .inl hle, hshist, ?_, ?_, ?_, ?_, ?_, .inr (List.mem_cons_self ..)⟩
+      all_goals dsimp only
+      · intro t ht; simp at ht
+      · intro w hw; simp at hw
+      · intro w hw; simp at hw
+      · intro x hx
+        simp only [List.mem_append] at hx
+        rcases hx with hx | hx
+        · exact ⟨r, List.mem_cons_self .., by have := hi.wait_ok x hx; omega⟩
+        · exact hold x (List.mem_append.mpr hx)
+      · intro h; cases h
+    · simp only [Option.some.injEq] at h
+      subst h
+      refine ⟨hi.fresh_pos, hi.proot_mem, hi.hist_le, hi.next_ok, .inr ⟨hmem, Nat.le_refl _⟩, .inr hmem, fun _ => .inl hle,
+        .inl hle, hshist, ?_, hi.wait_ok, ?_, hold, ?_, .inr (List.mem_cons_self ..)⟩
+      all_goals dsimp only
+      · intro t ht; simp at ht
+      · intro w hw; simp at hw
+      · intro h; cases h
 
 theorem cstep_finishFail {s s' : CState} (hi : CInv s) (h : cstep s .finishFail = some s') : CInv s' := by
   simp only [cstep] at h
@@ -171,7 +217,7 @@ theorem cstep_finishFail {s s' : CState} (hi : CInv s) (h : cstep s .finishFail 
     obtain ⟨hmem, hle, hsr, hp⟩ := hi.infl_ok r hr
     simp only [Option.some.injEq] at h; subst h
     refine ⟨hi.fresh_pos, hi.proot_mem, hi.hist_le, hi.next_ok, hi.last_ok, hi.sroot_ok, hi.sroot_le, hi.last_le,
-      hi.shist_ok, ?_, ?_, ?_, hi.acked_ok, ?_⟩
+      hi.shist_ok, ?_, ?_, ?_, hi.acked_ok, ?_, hi.sroot_shown⟩
     all_goals dsimp only
     · intro t ht; simp at ht
     · intro w hw
@@ -191,7 +237,7 @@ theorem cstep_finishLostAck {s s' : CState} (hi : CInv s) (h : cstep s .finishLo
     obtain ⟨hmem, hle, hsr, hp⟩ := hi.infl_ok r hr
     simp only [Option.some.injEq] at h; subst h
     refine ⟨hi.fresh_pos, hi.proot_mem, hi.hist_le, hi.next_ok, ?_, .inr hmem, fun _ => .inl hle, hi.last_le,
-      ?_, ?_, ?_, ?_, ?_, ?_⟩
+      ?_, ?_, ?_, ?_, ?_, ?_, .inr (List.mem_cons_self ..)⟩
     all_goals dsimp only
     · rcases hi.last_ok with h | h
       · exact .inl h
@@ -221,18 +267,45 @@ theorem cstep_other {s s' : CState} (hi : CInv s) (a : CStep)
     split at h
     · simp only [Option.some.injEq] at h; subst h
       exact ⟨hi.fresh_pos, hi.proot_mem, hi.hist_le, hi.next_ok, hi.last_ok, hi.sroot_ok, hi.sroot_le, hi.last_le,
-        hi.shist_ok, hi.infl_ok, hi.wait_ok, hi.await_ok, hi.acked_ok, hi.standby_zero⟩
+        hi.shist_ok, hi.infl_ok, hi.wait_ok, hi.await_ok, hi.acked_ok, hi.standby_zero, hi.sroot_shown⟩
     · simp at h
   · simp only [cstep] at h
     split at h
-    · simp only [Option.some.injEq] at h; subst h
+    · rename_i hc
+      simp only [caughtUp, Bool.and_eq_true, Bool.or_eq_true, bne_iff_ne, ne_eq, beq_iff_eq] at hc
+      obtain ⟨⟨hp, _⟩, hcu⟩ := hc
+      have hcu' : s.nextHead ≠ 0 ∧ s.nextHead = s.lastPushed := by
+        rcases hcu with h | h
+        · exact absurd hp h
+        · exact h
+      have h1 : s.lastPushed ≤ s.sroot := by
+        rcases hi.last_ok with h | h
+        · omega
+        · exact h.2
+      have h2 : s.sroot ≤ s.nextHead := by
+        rcases hi.sroot_le hp with h | h
+        · exact h
+        · exact absurd h hcu'.1
+      have hsh : s.sroot ∈ s.shist := by
+        rcases hi.sroot_shown with h | h
+        · omega
+        · exact h
+      simp only [Option.some.injEq] at h; subst h
       refine ⟨hi.fresh_pos, hi.proot_mem, hi.hist_le, .inl rfl, .inl rfl, hi.sroot_ok, ?_, .inr rfl,
-        hi.shist_ok, ?_, ?_, ?_, hi.acked_ok, ?_⟩
+        hi.shist_ok, ?_, ?_, ?_, ?_, ?_, hi.sroot_shown⟩
       all_goals dsimp only
       · intro h; cases h
       · intro t ht; simp at ht
       · intro w hw; simp at hw
       · intro w hw; simp at hw
+      · intro x hx
+        simp only [List.mem_append] at hx
+        rcases hx with hx | hx | hx
+        · exact ⟨s.sroot, hsh, by have := hi.wait_ok x hx; omega⟩
+        · obtain ⟨t, ht, hwt⟩ := hi.await_ok x hx
+          have := (hi.infl_ok t ht).2.1
+          exact ⟨s.sroot, hsh, by omega⟩
+        · exact hi.acked_ok x hx
       · intro _; exact ⟨rfl, rfl, rfl⟩
     · simp at h
   · simp only [cstep] at h
@@ -296,6 +369,12 @@ holds exactly the root the last hook execution recorded; every acknowledged comm
 commit whose hook ran and is still waiting, is contained in it. -/
 theorem graceful_no_ack_loss {s s' : CState} (hi : CInv s) (h : cstep s .completeGraceful = some s') :
     s'.sroot = s.nextHead ∧ (∀ r ∈ s'.acked, r ≤ s'.sroot) ∧ (∀ w ∈ s.waiters, w ≤ s'.sroot) ∧ s'.role = .standby := by
+  have hi' := cstep_inv hi .completeGraceful h
+  have hack : ∀ r ∈ s'.acked, r ≤ s'.sroot := by
+    intro r hr
+    obtain ⟨t, ht, hrt⟩ := hi'.acked_ok r hr
+    have := (hi'.shist_ok t ht).2
+    omega
   simp only [cstep] at h
   split at h
   · rename_i hc
@@ -316,12 +395,8 @@ theorem graceful_no_ack_loss {s s' : CState} (hi : CInv s) (h : cstep s .complet
       · exact h
       · exact absurd h hcu'.1
     have heq : s.sroot = s.nextHead := by omega
-    refine ⟨heq, ?_, ?_, rfl⟩
-    · intro r hr
-      obtain ⟨t, ht, hrt⟩ := hi.acked_ok r hr
-      have := (hi.shist_ok t ht).2
-      omega
-    · intro w hw; have := hi.wait_ok w hw; omega
+    refine ⟨heq, hack, ?_, rfl⟩
+    intro w hw; have := hi.wait_ok w hw; omega
   · simp at h
 
 /-- a graceful transition reachable from the initial state: the general statement, over all schedules -/
@@ -330,6 +405,29 @@ theorem graceful_no_ack_loss_run (sched : List CStep) (s' : CState)
     s'.sroot = (crun cinit sched).nextHead ∧ ∀ r ∈ s'.acked, r ≤ s'.sroot :=
   let g := graceful_no_ack_loss (crun_inv cinv_init sched) h
   ⟨g.1, g.2.1⟩
+
+/-- the statement one would like WITHOUT the fresh-root assumption (roots may recur, `XStep.revert`):
+a completed graceful transition, when the hook has seen the primary's current root, leaves the new
+primary at that root. -/
+def graceful_exact_full : Prop :=
+  ∀ (sched : List XStep),
+    (cstep (xrun cinit sched) .completeGraceful).isSome = true →
+    (xrun cinit sched).nextHead = (xrun cinit sched).proot →
+    (xrun cinit sched).sroot = (xrun cinit sched).proot   -- completeGraceful does not touch sroot
+
+/-- …is FALSE once a root can recur: root 1 replicated; root 2 (say, a new branch) lands on the
+standby but its acknowledgement is lost (`lastPushed` stays 1); the primary's root returns to 1 (the
+branch is deleted); the hook sets `nextHead = 1 = lastPushed`, `isCaughtUp` holds, nothing more is
+pushed, and the graceful transition completes with the standby on root 2.  `graceful_no_ack_loss`
+is the proved part (every write yields a fresh root).  The harness replays this schedule on the real
+commit hook (`cluster-root-recurrence` case of cmd/clusterhook). -/
+theorem graceful_exact_full_false : ¬ graceful_exact_full := by
+  intro h
+  have := h [.base .init, .base .begin, .base .finishOk, .base .write, .base .exec, .base .begin,
+    .base .finishLostAck, .revert 1, .base .exec, .base .beginGraceful]
+    (by decide) (by decide)
+  revert this
+  decide
 
 /-- **progress** (weak fairness made explicit) — if writes have stopped and the hook has seen the
 last one (`nextHead = proot`), ONE replication attempt that succeeds makes the standby equal to
